@@ -158,7 +158,33 @@ func first(ds ...string) string {
 
 // doOp performs one randomly chosen client call on one of the given files.
 // files is the caller's own list (it may also contain shared files).
+// checkFinalizers: the garbage collector may run the finalizer of any File
+// object nobody can reach any more, at any time.  A File's finalizer clunks its
+// fid; so no two File objects that carry a finalizer may have the same fid
+// number - the collector would clunk the live one's fid through the dead one.
+// (Finalizers are recorded by the simulator, not armed: DESIGN.md §11.)
+func (cw *cliWorld) checkFinalizers(after string) {
+	seen := map[uint64]bool{}
+	for _, o := range simrt.ArmedFinalizers() {
+		v := reflect.ValueOf(o)
+		if v.Kind() != reflect.Ptr || v.Elem().Kind() != reflect.Struct {
+			continue
+		}
+		fld := v.Elem().FieldByName("fid")
+		if !fld.IsValid() || !fld.CanUint() {
+			continue
+		}
+		if fid := fld.Uint(); seen[fid] {
+			cw.find("fid-shared-by-two-files", "finalizer", "after %s two File objects with a finalizer hold fid %d: when the collector runs the unreachable one's finalizer it clunks the fid of the live one", after, fid)
+			return
+		} else {
+			seen[fid] = true
+		}
+	}
+}
+
 func (cw *cliWorld) doOp(ch func(int) int, files *[]p9.File, light bool) {
+	defer cw.checkFinalizers("a client call")
 	from := len(cw.Fake.Reqs)
 	pick := func() p9.File { return (*files)[ch(len(*files))] }
 	f := pick()
